@@ -112,6 +112,21 @@ func includeFiles(c *c11Case) map[string]string {
 	return f
 }
 
+var dupFamilies = [][]string{
+	// plain + functional subroutine of the same name
+	{"sub c11_pf {\n  set req.http.P = \"1\";\n}\n", "sub c11_pf STRING {\n  return \"p\";\n}\n"},
+	// functional + functional
+	{"sub c11_ff STRING {\n  return \"a\";\n}\n", "sub c11_ff STRING {\n  return \"b\";\n}\n"},
+	// functional + plain + plain
+	{"sub c11_fpp INTEGER {\n  return 1;\n}\n", "sub c11_fpp {\n  set req.http.Q = \"1\";\n}\n", "sub c11_fpp {\n  set req.http.Q = \"2\";\n}\n"},
+	{"acl c11_dup_acl { \"192.0.2.0\"/24; }\n", "acl c11_dup_acl { \"198.51.100.0\"/24; }\n"},
+	{"table c11_dup_table { \"a\": \"b\" }\n", "table c11_dup_table { \"c\": \"d\" }\n"},
+	{"backend c11_dup_be { .host = \"one.example.com\"; }\n", "backend c11_dup_be { .host = \"two.example.com\"; }\n"},
+	{"director c11_dup_dir random { { .backend = example; .weight = 1; } }\n", "director c11_dup_dir random { { .backend = example; .weight = 2; } }\n"},
+	// a subroutine and an acl / table sharing a name (different kinds of declaration)
+	{"acl c11_mixed { \"203.0.113.0\"/24; }\n", "table c11_mixed { \"k\": \"v\" }\n"},
+}
+
 // passesBlocks returns the prelude (never permuted) and one block per subroutine declaration.
 func passesBlocks(c *c11Case, rng *rand.Rand) (string, []string) {
 	var pre strings.Builder
@@ -186,6 +201,13 @@ func passesBlocks(c *c11Case, rng *rand.Rand) (string, []string) {
 	}
 	if functional {
 		blocks = append(blocks, "sub c11_func STRING {\n  return \"x\";\n}\n")
+	}
+	// duplicated names across declaration kinds: whichever declaration comes first, the same diagnostics
+	// (apart from their locations) must come out.  Each family joins the permuted blocks with probability 1/2.
+	for _, fam := range dupFamilies {
+		if rng.Intn(2) == 0 {
+			blocks = append(blocks, fam...)
+		}
 	}
 	return pre.String(), blocks
 }
